@@ -33,6 +33,7 @@ import builtins
 import contextlib
 import io
 import itertools
+import sys
 import traceback
 
 from mc import common, sched
@@ -277,7 +278,8 @@ def install_locks(obj):
 
 
 class Stores(dict):
-    logs: dict
+    logs: dict  # store name -> notifications recorded by its callback
+    cbs: dict   # store name -> the callback it was constructed with (harness-side handle, for ("set", .., "cb"))
 
 
 def _recorder(stores, name, log, raises):
@@ -293,6 +295,7 @@ def _recorder(stores, name, log, raises):
 def mk_stores(cfgs, order=None):
     stores = Stores()
     stores.logs = {}
+    stores.cbs = {}
     for name in (order or list(cfgs)):
         if name == "_":
             ATP_Store(budget=1, silent=True)  # unrelated instance: takes a lock rank
@@ -311,7 +314,7 @@ def mk_stores(cfgs, order=None):
         # re-acquires a lock it already holds raises HangDetected instead of hanging the check
         install_locks(s)
         stores[name] = s
-        s._cb = kw.get("on_state_change")  # harness-side handle for ("set", store, "on_state_change", "cb")
+        stores.cbs[name] = kw.get("on_state_change")
     return stores
 
 
@@ -382,7 +385,7 @@ def apply(stores, op):
         st = s.get_statistics()
         return (r.atp, r.gtp, r.nadh, r.debt, st["atp"], st["gtp"], st["nadh"], st["debt"])
     if k == "set":  # public attribute assigned after construction (setup only)
-        return setattr(s, op[2], s._cb if op[3] == "cb" else op[3])
+        return setattr(s, op[2], stores.cbs[op[1]] if op[3] == "cb" else op[3])
     if k == "express":
         from operon_ai.core.agent import BioAgent
         from operon_ai.core.types import Signal
@@ -395,12 +398,47 @@ def _final_of(s):
     return (s.atp, s.gtp, s.nadh, s.get_debt(), s.get_state().value, s.get_statistics()["total_consumed"])
 
 
+def debt_of(s):
+    """the store's debt as the public API reports it: get_debt(), else (that getter fails on a changed tree) the
+    statistics / the report; None if no public source answers with a number"""
+    for src in (s.get_debt, lambda: s.get_statistics()["debt"], lambda: s.get_report().debt):
+        d = guarded(src)
+        if isinstance(d, (int, float)) and not isinstance(d, bool):
+            return d
+    return None
+
+
+def _under_trace_callback():
+    """is the caller running inside a trace function (a frame executing the f_trace of the frame below it)?"""
+    f = sys._getframe(1)
+    while f is not None and f.f_back is not None:
+        t = f.f_back.f_trace
+        if t is not None and getattr(t, "__code__", None) is f.f_code:
+            return True
+        f = f.f_back
+    return False
+
+
+def getter_takes_lock(s):
+    """Does get_debt() acquire one of the store's (scheduler-aware) locks? Decided by behaviour, sequentially: with
+    every lock of the store held by somebody else the call cannot return (HangDetected). The per-scheduling-point
+    invariant calls the getter only if it can never block."""
+    locks = [v for v in vars(s).values() if isinstance(v, sched.CoopLock) and v.owner is None]
+    for l in locks:
+        l.owner, l.count = "probe", 1
+    try:
+        return is_hang(guarded(s.get_debt))
+    finally:
+        for l in locks:
+            l.owner, l.count = None, 0
+
+
 def final(stores):
     out = []
     for n, s in sorted(stores.items()):
         f = guarded(_final_of, s)
         if is_hang(f) or is_raised(f):  # a getter fails on the end state: part of the outcome
-            f = (s.atp, s.gtp, s.nadh, s._debt, f)
+            f = (s.atp, s.gtp, s.nadh, debt_of(s), f)
         out.append((n,) + f + ((tuple(stores.logs[n]),) if n in stores.logs else ()))
     return tuple(out)
 
@@ -479,10 +517,25 @@ def make_factory(name):
                          for r in ex.results)
             return (rets, final(stores))
 
+        locking = {n: getter_takes_lock(s) for n, s in stores.items()}
+
         def invariant():
+            # what user code can see at this moment: the public balance attributes and the debt getter (lock-free in
+            # the pinned tree; a getter that takes a lock cannot be asked from inside the scheduler - the debt is then
+            # judged on the end state and through the G family's concurrent getters only)
+            # The getter's own lines must not become scheduling points: it is only called while the interpreter has
+            # tracing switched off, i.e. from inside the line tracer. (The scheduler's extra point in front of the
+            # second lock acquisition of one source line comes from ordinary code; no store field changed since the
+            # line point before it, so nothing is lost by reading only the public attributes there.)
+            in_tracer = _under_trace_callback()
             for n, s in stores.items():
-                if s.atp < 0 or s.gtp < 0 or s.nadh < 0 or s._debt < 0:
-                    return f"{n}: atp={s.atp} gtp={s.gtp} nadh={s.nadh} debt={s._debt}"
+                debt = 0
+                if not locking[n] and in_tracer:
+                    debt = guarded(s.get_debt)
+                    if not isinstance(debt, (int, float)):
+                        debt = 0  # a failing getter is judged on the end state (final)
+                if s.atp < 0 or s.gtp < 0 or s.nadh < 0 or debt < 0:
+                    return f"{n}: atp={s.atp} gtp={s.gtp} nadh={s.nadh} debt={debt}"
             return None
 
         make.invariant = invariant
@@ -535,9 +588,10 @@ def judge_factory(name):
     # observer-side accounting (public call history only): wealth = atp + gtp + nadh - debt over all stores;
     # a successful spend lowers it by exactly its cost, a regeneration raises it by at most its amount,
     # convert / transfer / dormancy never raise it
-    w_start = sum(s.atp + s.gtp + s.nadh - s._debt for s in start.values())
+    d_start = {n: debt_of(s) for n, s in start.items()}
+    w_start = sum(s.atp + s.gtp + s.nadh - (d_start[n] or 0) for n, s in start.items())
     max_debt = {n: s.max_debt for n, s in start.items()}
-    accountable = not (kinds & {"reset", "express", "interest", "set"})
+    accountable = not (kinds & {"reset", "express", "interest", "set"}) and None not in d_start.values()
     debt_capped = "interest" not in kinds
 
     def clauses(outcome):
@@ -545,6 +599,8 @@ def judge_factory(name):
         v = []
         for e in fin:
             n, atp, gtp, nadh, debt = e[:5]
+            if debt is None:  # no public getter reports the debt of this end state (the getters' failure is in `fin`)
+                continue
             if min(atp, gtp, nadh, debt) < 0:
                 v.append((f"negative-balance:{name}", f"final state of {n}: atp={atp} gtp={gtp} nadh={nadh} debt={debt}"))
             elif debt_capped and debt > max_debt[n]:
@@ -552,7 +608,7 @@ def judge_factory(name):
         bad = _negative_reads(threads, rets)
         if bad:
             v.append((f"negative-balance-read:{name}", f"a getter returned a negative value: {bad[:3]}"))
-        if accountable and not v:
+        if accountable and not v and all(e[4] is not None for e in fin):
             spent = sum(op[2] for t, tr in zip(threads, rets) for op, r in zip(t, tr) if op[0] == "consume" and r is True)
             regen = sum(op[2] for t in threads for op in t if op[0] == "regenerate")
             w_end = sum(e[1] + e[2] + e[3] - e[4] for e in fin)
